@@ -59,7 +59,7 @@ func c08LiveQuery(t geom.T, m *ref.G, final bool) string {
 func init() {
 	engine.Register(&engine.Check{
 		ID: "C08", Level: "model_checking",
-		Rule: "(a) every geometry of U (6 layouts, non-monotonic values; plus every {finite,+Inf,-Inf} assignment to one dimension of 3-coordinate lines and multipoints) and every collection of 0..3 members over an 8-member menu (mixed layouts, empty members, nested and empty nested collections): Bounds() per semantic dimension vs reference fold, IsEmpty, Bounds.Polygon, GeoJSON bbox; (b) BFS over Extend histories (depth <=4 quick, <=5 thorough) from NewBounds(l), l in {NoLayout,XY,XYZ,XYM,XYZM}, as is or filled through SetCoords / Set, alphabet = 1-point, 2-point and empty geometry per layout, and a second alphabet of one-point geometries with +Inf/-Inf ordinates: state = (layout, min bits, max bits); every state compared per semantic dimension with the fold over the multiset and with every other history reaching the same multiset; (c) Overlaps/OverlapsPoint on all pairs of boxes with interval endpoints in {0..3} (2D) / {0..2} (3D) incl. empty intervals vs closed-interval arithmetic Also: overlap queries in a narrower layout than the boxes (extra dimensions holding an interval or nothing), and every query / in-place change / query history of length <=3 (thorough 4) on live geometries and collections (members edited or pushed into after the collection was asked for its bounds; the returned box extended by the caller).",
+		Rule: "(a) every geometry of U (6 layouts, non-monotonic values; plus every {finite,+Inf,-Inf} assignment to one dimension of 3-coordinate lines and multipoints) and every collection of 0..3 members over an 8-member menu (mixed layouts, empty members, nested and empty nested collections; collections with a SetLayout-fixed layout over nested collections that mix lower layouts): Bounds() per semantic dimension vs reference fold, IsEmpty, Bounds.Polygon, GeoJSON bbox; (b) BFS over Extend histories (depth <=4 quick, <=5 thorough) from NewBounds(l), l in {NoLayout,XY,XYZ,XYM,XYZM}, as is or filled through SetCoords / Set, alphabet = 1-point, 2-point and empty geometry per layout, and a second alphabet of one-point geometries with +Inf/-Inf ordinates: state = (layout, min bits, max bits); every state compared per semantic dimension with the fold over the multiset and with every other history reaching the same multiset; (c) Overlaps/OverlapsPoint on all pairs of boxes with interval endpoints in {0..3} (2D) / {0..2} (3D) incl. empty intervals vs closed-interval arithmetic Also: overlap queries in a narrower layout than the boxes (extra dimensions holding an interval or nothing), and every query / in-place change / query history of length <=3 (thorough 4) on live geometries and collections (members edited or pushed into after the collection was asked for its bounds; the returned box extended by the caller).",
 		Run:  c08Run,
 		Replay: func(c *engine.Ctx, kind string, raw json.RawMessage) {
 			if kind == "c08-history" {
@@ -485,6 +485,30 @@ func c08Run(c *engine.Ctx) {
 		if c.Thorough() {
 			geoms = append(geoms, &ref.G{Kind: ref.Collection, Kids: []*ref.G{{Kind: ref.Collection, Kids: []*ref.G{g}}, members[3]}})
 		}
+	}
+	// collections with a layout fixed by SetLayout whose nested (layout-less) collections mix
+	// lower layouts that only TOGETHER cover the fixed one (XYZ + XYM under XYZM, XY + XYZ under XYZ)
+	for _, fx := range []struct {
+		fixed geom.Layout
+		in    []geom.Layout
+		own   geom.Layout
+	}{
+		{geom.XYZM, []geom.Layout{geom.XYZ, geom.XYM}, geom.XYZM},
+		{geom.XYZM, []geom.Layout{geom.XYM, geom.XYZM}, geom.XYZM},
+		{geom.XYZM, []geom.Layout{geom.XYM, geom.XYZ, geom.XY}, geom.XYZM},
+		{geom.XYZ, []geom.Layout{geom.XY, geom.XYZ}, geom.XYZ},
+		{geom.XYM, []geom.Layout{geom.XYM, geom.XY}, geom.XYM},
+	} {
+		var inner []*ref.G
+		for i, l := range fx.in {
+			inner = append(inner, ref.NewLine(ref.LineString, l, 2, ref.CounterFrom(float64(30*(i+1)))))
+		}
+		nested := ref.NewCollection(geom.NoLayout, inner...)
+		geoms = append(geoms,
+			ref.NewCollection(fx.fixed, nested),
+			ref.NewCollection(fx.fixed, nested, ref.NewMultiPoint(fx.own, []int{1, 1}, ref.CounterFrom(-70))),
+			ref.NewCollection(fx.fixed, ref.NewPoint(fx.own, true, ref.CounterFrom(200)), ref.NewCollection(geom.NoLayout, nested)),
+		)
 	}
 	// large geometries: the extreme values sit in the middle of long coordinate arrays
 	for _, l := range ref.LayoutsAll {
